@@ -37,13 +37,14 @@ RULE = (
     "g != pi(G) and one with pi != identity."
 )
 PROBES = ["default_setting_solver", "entries_ge_2", "entry_with_lc_graph_different", "entry_with_nonidentity_map",
-          "target_as_nx", "target_as_g", "target_as_s", "target_as_dm", "seedless"]
+          "target_as_nx", "target_as_g", "target_as_s", "target_as_dm", "seedless", "target_nodes_inserted_unsorted"]
 REAL = ["graphiq.solvers.alternate_target_solver.AlternateTargetSolver.solve / graph_to_circ", "graphiq.utils.relabel_module",
         "graphiq.backends.stabilizer.functions.local_cliff_equi_check (lc_check, str_to_op, state_converter_circuit)",
         "graphiq.solvers.time_reversed_solver.TimeReversedSolver", "graphiq.solvers.solver_result.SolverResult", "both compilers"]
 STUB = ["numpy Generators / global numpy RNG / measurement outcomes owned by the simulator"]
 ASSUMPTIONS = [
-    "vertex i of the input graph is qubit i (vertices inserted in sorted order)",
+    "for stabilizer / density-matrix presentations vertex i is qubit i (vertices inserted in sorted order); for networkx / graph "
+    "presentations the vertices are also inserted in shuffled order and the entry's map is read as label -> new label",
     "orbit explorers are always bounded by n_lc_graphs (orbit_size_thresh) as the solver does",
 ]
 
@@ -67,6 +68,7 @@ def gen_case(run_seed, tier):
         "present": sz.choice(["nx", "g", "s", "dm"]),
         "default_solver": method == "default" and sz.random() < 0.6,
         "lseed": sz.randrange(10**9), "bug_rate": sz.choice([0.0, 0.0, 0.2, 0.5]),
+        "shuffle_nodes": sz.random() < 0.35,
     }
 
 
@@ -84,6 +86,10 @@ def simplify(case):
         c = dict(case)
         c["present"] = "nx"
         yield c
+    if case.get("shuffle_nodes"):
+        c = dict(case)
+        c["shuffle_nodes"] = False
+        yield c
     if case["depth"] is not None:
         c = dict(case)
         c["depth"] = None
@@ -95,6 +101,15 @@ def run_case(case):
     ctx = Ctx(ID)
     n, edges = case["n"], [tuple(e) for e in case["edges"]]
     G = graphs.to_nx((n, edges))
+    if case.get("shuffle_nodes") and case["present"] in ("nx", "g"):
+        # same labelled graph, vertices inserted in another order (the relabel map must then still be an isomorphism
+        # from the target's labels); only for presentations that keep the labels
+        order = list(range(n))
+        random.Random(case["lseed"] + 9).shuffle(order)
+        G = nx.Graph()
+        G.add_nodes_from(order)
+        G.add_edges_from(edges)
+        ctx.probe("target_nodes_inserted_unsorted")
     lib = random.Random(case["lseed"])
     sig = {"method": case["method"], "present": case["present"]}
     ctx.probe("target_as_" + case["present"])
